@@ -211,7 +211,19 @@ class G:
                 self.feat.add("literal_in_op_call")
             elif k == "clip":
                 lo, hi = r.choice([(0, 6), (-1.0, 1.0), (-2, 2.5)])
-                e = f"op.Clip({e}, {lo!r}, {hi!r})"
+                form = r.choice(["pos", "pos", "kw_max", "kw_min", "kw_both", "none_max"])
+                if form == "pos":
+                    e = f"op.Clip({e}, {lo!r}, {hi!r})"
+                elif form == "kw_max":
+                    # an input passed by keyword after an omitted optional input must keep its slot
+                    e = f"op.Clip({e}, max={hi!r})"
+                    self.feat.add("keyword_input_after_omitted_optional")
+                elif form == "kw_min":
+                    e = f"op.Clip({e}, min={lo!r})"
+                elif form == "kw_both":
+                    e = f"op.Clip({e}, max={hi!r}, min={lo!r})"
+                else:
+                    e = f"op.Clip({e}, None, {hi!r})"
                 self.feat.add("literal_in_op_call")
             elif k in ("other", "max", "where"):
                 try:
